@@ -22,6 +22,9 @@ MOLECULES = {
 }
 
 
+MOLECULES["CHFClBr_mirror"] = [(el, -x, y, z) for el, x, y, z in MOLECULES["CHFClBr"]]      # the other enantiomer
+
+
 def write_xyz(name: str, directory: str) -> str:
     path = os.path.join(directory, f"{name}.xyz")
     atoms = MOLECULES[name]
